@@ -144,6 +144,33 @@ fn absolutize_relative_token<'a>(
         })
 }
 
+/// Verification hook: the (absolute start, length) pairs that one token is split into,
+/// for out-of-tree proof harnesses.
+#[cfg(kani)]
+pub fn verif_token_lines(
+    page_content: &str,
+    literal_start: u32,
+    token_span: Span,
+) -> Vec<(u32, u32)> {
+    let text_source = TextSource {
+        // never looked up
+        relative_path_to_source_file: unsafe { intern::string_key::StringKey::from_index(0) }
+            .into(),
+        span: None,
+    };
+    let token = WithEmbeddedLocation::new(
+        isograph_lang_types::semantic_token_legend::ST_COMMENT,
+        common_lang_types::EmbeddedLocation::new(text_source, token_span),
+    );
+    absolutize_relative_token(
+        page_content,
+        Span::new(literal_start, literal_start),
+        &token,
+    )
+    .map(|t| (t.absolute_char_start, t.len))
+    .collect()
+}
+
 fn convert_absolute_token_to_lsp_token<'a>(
     absolute_tokens: impl Iterator<Item = AbsoluteIsographSemanticToken> + 'a,
     page_content: &'a str,
